@@ -41,17 +41,19 @@ func init() {
 		NonTrivial: nonTrivial,
 		Rule: "dp cases: ≥ 3 items and at least one knap/solv op that did not panic; map cases: ≥ 2 keys and one query; " +
 			"graph cases: ≥ 3 vertices, ≥ 1 edge and one query; distinct by hash of the case lines; " +
-			"stream 'large' = 17..200 items / 33..120 vertices, judged by non-brute-force independent oracles (own DP table, reachable-total table, own pivoting Bron–Kerbosch + per-clique maximality)",
+			"stream 'large' = 17..200 items / 33..120 vertices, judged by non-brute-force independent oracles (own DP table, reachable-total table, own pivoting Bron–Kerbosch + per-clique maximality); " +
+			"stream 'sentinel' = arguments at the edge of int: 1..8 items of weight MaxInt, MaxInt-1, MaxInt-W, 1<<62, 1<<62±1, MaxInt/2+1, MaxInt/3+1 … (several per case, any position) among ordinary items, values / maxValue / map keys at the guard (total = MaxInt, limits MaxInt-2..MaxInt); the oracle never adds weights (room left, item by item)",
 		Classify: classify,
 		Shrink:   shrink,
 		Parallel: true,
 		Extras: []core.Extra{
 			{Name: "all-graphs-small", Run: exhaustiveGraphs},
 			{Name: "all-small-item-lists", Run: exhaustiveItems},
+			{Name: "all-small-item-lists-with-sentinel-weights", Run: exhaustiveSentinel},
 			{Name: "type-parameter-matrix", Run: typeMatrix},
 		},
 		Assumptions: []string{
-			"Go int treated as unbounded (no sums near 2^63); math.MaxInt only as the initial minDiff",
+			"Go int: the models compute in unbounded Int; the 64-bit twin (wrapping maxWeight+1, i-w, i--, Go panics) is proved equal to them for ALL 64-bit weights and limits < math.MaxInt, and for the value sums of Knapsack / FindDpSolvers under the guard 'sum of |values| < 2^63' (c18_knapsack_int64_weights, c18_knapsack_int64_exact, c18_solvers_int64_exact); beyond that guard Go wraps (not generated); math.MaxInt is the initial minDiff of Best (Best(MaxInt) never selects key 0)",
 			"tie-breakers are pure functions of the two item lists (they do not modify or retain them)",
 			"Go map iteration order is an input of the model (any permutation); the compared observables are the order-independent ones",
 			"Knapsack's tmp / per-cell buffers and BronKerbosch's R array are modelled as values (private by construction); the pool of FindDpSolvers and the shared P/X array of GetMaximalCliques are modelled as explicit buffers",
@@ -564,16 +566,20 @@ func implStep(kind string, items []item, keys []int, gc *graphCase, lg *ledger, 
 		lg.keepItems(sel)
 		ids := idsOf(sel)
 		valid := "true"
-		tw, tv := 0, 0
+		tv := 0
 		if !validSelection(ids, len(items)) {
 			valid = "false:not-a-sub-selection:" + strings.ReplaceAll(fmt.Sprint(ids), " ", ",")
 		} else {
 			for _, id := range ids {
-				tw += items[id].w
 				tv += items[id].v
 			}
-			if tw > W {
-				valid = fmt.Sprintf("false:weight-%d-exceeds-limit", tw)
+			neg := false
+			for _, x := range items {
+				neg = neg || x.w < 0
+			}
+			// no sum of weights is formed (weights may be as large as math.MaxInt)
+			if _, ok := fitsLimit(items, func(i int) bool { return contains(ids, i) }, W); !ok && !neg {
+				valid = "false:weight-exceeds-limit"
 			}
 		}
 		return fmt.Sprintf("value=%d valid=%s", tv, valid)
